@@ -31,6 +31,7 @@ type SimCfg struct {
 	Resync  bool // handler machines: after a handler consumed a value the code re-reads its last byte
 	Fast    bool // non-validating skip machine: proved under the hypothesis that the spec accepts
 	Num     bool // number registers of the spec run (mantissa, digit count, decimal point, exponent)
+	Out     bool // output registers of the spec run: the decoded content of the string token
 }
 
 type Sim struct {
@@ -74,6 +75,8 @@ func parseSimCfg(fc *FuncContract) (*SimCfg, error) {
 			c.Fast = v == "1"
 		case k == "num":
 			c.Num = v == "1"
+		case k == "out":
+			c.Out = v == "1"
 		case k == "stack":
 			c.Stack = v
 		case k == "top":
@@ -149,6 +152,54 @@ func (ex *Exec) numAxiom(arr, k *Term) *Term {
 	)
 }
 
+// Output registers of the spec run: the decoded content of the (value) string token being read,
+// per RFC 8259 section 7. Rout(k): number of content bytes produced after k input bytes;
+// Robyte(j): the j-th content byte; Rskip(k): inside the second escape of a combined surrogate
+// pair. Unescaped bytes are copied, the two-character escapes produce their byte, a \uXXXX escape
+// produces the UTF-8 encoding of escRune (surrogate pairs combined, unpaired surrogates U+FFFD).
+func (ex *Exec) Rout(arr, k *Term) *Term   { return App(ex.rName("out", arr), BV(64), k) }
+func (ex *Exec) Robyte(arr, j *Term) *Term { return App(ex.rName("ob", arr), BV(8), j) }
+func (ex *Exec) Rskip(arr, k *Term) *Term  { return App(ex.rName("skip", arr), BoolSort, k) }
+
+func escByteTerm(b *Term) *Term {
+	c := func(x byte) *Term { return BVI(8, int64(x)) }
+	return Ite(Eq(b, c('b')), c(8), Ite(Eq(b, c('f')), c(12), Ite(Eq(b, c('n')), c(10), Ite(Eq(b, c('r')), c(13), Ite(Eq(b, c('t')), c(9), b)))))
+}
+
+func (ex *Exec) outAxiom(arr, k *Term) *Term {
+	q, q1 := ex.Rq(arr, k), ex.Rq(arr, Add(k, I64(1)))
+	b := Select(arr, k)
+	k1 := Add(k, I64(1))
+	out, out1 := ex.Rout(arr, k), ex.Rout(arr, k1)
+	skip, skip1 := ex.Rskip(arr, k), ex.Rskip(arr, k1)
+	inStr := func(x *Term) *Term { return qnamed(x, "InValue.Str*") }
+	str := func(x *Term) *Term { return qnamed(x, "InValue.Str@*") }
+	start := And(Not(inStr(q)), str(q1))
+	plain := And(str(q), str(q1))
+	simple := And(qnamed(q, "InValue.StrEsc@*"), str(q1))
+	uend := And(qnamed(q, "InValue.StrU4@*"), str(q1))
+	e0 := Sub(k, I64(5))
+	end := ex.simEnd
+	if end == nil {
+		end = I64(0)
+	}
+	r := escRuneSym(arr, e0, end)
+	n := u8len(r)
+	ubs := []*Term{Sle(I64(1), n), Sle(n, I64(4))}
+	for j := int64(0); j < 4; j++ {
+		ubs = append(ubs, Implies(Slt(I64(j), n), Eq(ex.Robyte(arr, Add(out, I64(j))), u8b(r, I64(j)))))
+	}
+	emitU := And(uend, Not(skip))
+	return And(
+		Implies(start, And(Eq(out1, I64(0)), Not(skip1))),
+		Implies(plain, And(Eq(ex.Robyte(arr, out), b), Eq(out1, Add(out, I64(1))), Eq(skip1, skip))),
+		Implies(simple, And(Eq(ex.Robyte(arr, out), escByteTerm(b)), Eq(out1, Add(out, I64(1))), Eq(skip1, skip))),
+		Implies(emitU, And(And(ubs...), Eq(out1, Add(out, n)), Eq(skip1, escPairSym(arr, e0, end)))),
+		Implies(And(uend, skip), And(Eq(out1, out), Not(skip1))),
+		Implies(And(Not(start), Not(plain), Not(simple), Not(uend)), And(Eq(out1, out), Eq(skip1, skip))),
+	)
+}
+
 // Rna / Rno: number of array / object frames open at position k (counters of the spec
 // transducer, used only by the bracket-kind-only "fast" machine).
 func (ex *Exec) Rna(arr, k *Term) *Term { return App(ex.rName("na", arr), BV(64), k) }
@@ -212,6 +263,9 @@ func (ex *Exec) stepAxiom(arr, k *Term) *Term {
 	}
 	if ex.simNum {
 		ax = And(ax, ex.numAxiom(arr, k))
+	}
+	if ex.simOut {
+		ax = And(ax, ex.outAxiom(arr, k))
 	}
 	if ex.simVariant == "travobj" {
 		quote := Eq(b, BVI(8, '"'))
@@ -383,6 +437,19 @@ func init() {
 		e.fail("fpslow: unknown component %q", what)
 		return TV{}
 	}
+	// Rout(data, k), Robyte(data, j), Rskip(data, k): output registers of the spec run (decoded string content)
+	specFns["Rout"] = func(e *Env, a []TV, n *ast.CallExpr) TV {
+		arr, off, _ := sliceArgs(e, a[0], n)
+		return TV{V: e.ex.Rout(arr, Add(off, Resize(argTerm(e, a[1], n), 64, true))), Signed: true}
+	}
+	specFns["Robyte"] = func(e *Env, a []TV, n *ast.CallExpr) TV {
+		arr, _, _ := sliceArgs(e, a[0], n)
+		return TV{V: e.ex.Robyte(arr, Resize(argTerm(e, a[1], n), 64, true))}
+	}
+	specFns["Rskip"] = func(e *Env, a []TV, n *ast.CallExpr) TV {
+		arr, off, _ := sliceArgs(e, a[0], n)
+		return TV{V: e.ex.Rskip(arr, Add(off, Resize(argTerm(e, a[1], n), 64, true)))}
+	}
 	specFns["accepts"] = func(e *Env, a []TV, n *ast.CallExpr) TV {
 		arr, off, ln := sliceArgs(e, a[0], n)
 		return TV{V: e.ex.acceptsTerm(arr, Add(off, ln))}
@@ -505,6 +572,7 @@ func (eng *Engine) attachSim(fp *FuncProof) {
 	}
 	ex.simFast = cfg.Fast
 	ex.simNum = cfg.Num
+	ex.simOut = cfg.Out
 	sv, ok := ex.params[cfg.Data].(*SliceV)
 	if !ok {
 		fp.problem("sim: no slice parameter %s", cfg.Data)
@@ -514,6 +582,7 @@ func (eng *Engine) attachSim(fp *FuncProof) {
 	sim.reg = sv.Reg
 	sim.arr = fp.s0.loadArr(ex, sv.Reg)
 	sim.dlen = sv.Len
+	ex.simEnd = Add(sv.Off, sv.Len)
 	// the fold axiom, instantiated at every index at which the VC mentions a byte of the input
 	bv := Fresh("q.fold", BV(64))
 	fp.s0.qfacts = append(fp.s0.qfacts, &QFact{Guard: True, BV: bv, Body: ex.stepAxiom(sim.arr, bv), Name: "fold", OnlySelect: true, SelectRoot: sim.arr})
